@@ -13,11 +13,11 @@ import (
 )
 
 type Doc struct {
-	OpenAPI    string                `json:"openapi"`
-	Info       Info                  `json:"info"`
-	Servers    []*Server             `json:"servers,omitempty"`
-	Paths      map[string]*PathItem  `json:"paths"`
-	Components *Components           `json:"components,omitempty"`
+	OpenAPI    string                 `json:"openapi"`
+	Info       Info                   `json:"info"`
+	Servers    []*Server              `json:"servers,omitempty"`
+	Paths      map[string]*PathItem   `json:"paths"`
+	Components *Components            `json:"components,omitempty"`
 	Security   *[]map[string][]string `json:"security,omitempty"`
 }
 
@@ -117,14 +117,14 @@ type MethodOp struct {
 }
 
 type Operation struct {
-	OperationID string                   `json:"operationId,omitempty"`
-	Summary     string                   `json:"summary,omitempty"`
-	Description string                   `json:"description,omitempty"`
-	Tags        []string                 `json:"tags,omitempty"`
-	Parameters  []*Parameter             `json:"parameters,omitempty"`
-	RequestBody *RequestBody             `json:"requestBody,omitempty"`
-	Responses   map[string]*Response     `json:"responses"`
-	Security    *[]map[string][]string   `json:"security,omitempty"`
+	OperationID string                 `json:"operationId,omitempty"`
+	Summary     string                 `json:"summary,omitempty"`
+	Description string                 `json:"description,omitempty"`
+	Tags        []string               `json:"tags,omitempty"`
+	Parameters  []*Parameter           `json:"parameters,omitempty"`
+	RequestBody *RequestBody           `json:"requestBody,omitempty"`
+	Responses   map[string]*Response   `json:"responses"`
+	Security    *[]map[string][]string `json:"security,omitempty"`
 }
 
 type Parameter struct {
